@@ -261,6 +261,26 @@ def storages(mod: nn.Module) -> set:
     return s
 
 
+def sharing_structure(mod: nn.Module) -> List[Tuple[str, ...]]:
+    """Which parameter / buffer names of the module tree refer to one and the same tensor
+    object (tied weights, a layer registered twice): sorted groups of names."""
+    groups: Dict[int, List[str]] = {}
+    for n, p in mod.named_parameters(remove_duplicate=False):
+        groups.setdefault(id(p), []).append("P:" + n)
+    for n, b in mod.named_buffers(remove_duplicate=False):
+        groups.setdefault(id(b), []).append("B:" + n)
+    return sorted(tuple(sorted(v)) for v in groups.values())
+
+
+def sharing_diff(src: nn.Module, derived: nn.Module) -> Optional[str]:
+    a, b = sharing_structure(src), sharing_structure(derived)
+    if a == b:
+        return None
+    only_a = [g for g in a if g not in b]
+    only_b = [g for g in b if g not in a]
+    return f"source has {only_a[:3]}, derived module has {only_b[:3]}"
+
+
 def state_snapshot(mod: nn.Module) -> Dict[str, torch.Tensor]:
     return {k: v.detach().clone() for k, v in mod.state_dict().items()}
 
